@@ -39,6 +39,20 @@ func C12(c *Ctx) {
 		gors := callsIn(po, "airgapped.(Machine).GetOperationResult")
 		stores := callsIn(po, "airgapped.(Machine).storeOperation")
 		writes := ssax.Calls(po, false, func(ci ssa.CallInstruction) bool { return isFileWrite(ci) })
+		if len(writes) == 0 {
+			// the write may sit in a helper of the package (a helper with a deferred Close is not expanded in place):
+			// the call that leads to it stands for the write
+			writes = ssax.Calls(po, false, func(ci ssa.CallInstruction) bool {
+				sc := ci.Common().StaticCallee()
+				if sc == nil || sc.Pkg != po.Pkg || len(sc.Blocks) == 0 {
+					return false
+				}
+				if id := ssax.FuncID(ssax.CalleeObj(ci)); strings.HasSuffix(id, ".storeOperation") || strings.HasSuffix(id, ".GetOperationResult") {
+					return false
+				}
+				return len(ssax.Calls(sc, true, func(x ssa.CallInstruction) bool { return isFileWrite(x) })) > 0
+			})
+		}
 		if len(gors) != 1 || len(stores) != 1 || len(writes) != 1 {
 			r.Unknown("C12/R1", "airgapped.ProcessOperation:shape", "compute, log, write", c.Pos(po.Pos()), sprintf("GetOperationResult=%d storeOperation=%d write=%d", len(gors), len(stores), len(writes)))
 		} else {
@@ -68,7 +82,13 @@ func C12(c *Ctx) {
 			_ = cut
 			okOrder := !ssax.ReachableFrom(po, st, wr, sOK, nil) && len(sOK) > 0 && !ssax.ReachableAvoiding(po, wr, gOK, nil)
 			r.Check(okOrder, "C12/R4", "airgapped.ProcessOperation:log<file", "the result file is written after the operation was logged (a result the operator saw is replayable)", c.PosOf(wr), "the result file can be written although logging failed, or before the result was computed")
-			r.Check(strings.Contains(npath(wr.Common().Args[len(wr.Common().Args)-1]), "GetOperationResult(operation)#0"), "C12/R4", "airgapped.ProcessOperation:file-content", "the file holds the computed result", c.PosOf(wr), "written bytes are not the marshalled result")
+			content := false
+			for _, a := range wr.Common().Args {
+				if strings.Contains(npath(a), "GetOperationResult(operation)#0") {
+					content = true
+				}
+			}
+			r.Check(content, "C12/R4", "airgapped.ProcessOperation:file-content", "the file holds the computed result", c.PosOf(wr), "written bytes are not the marshalled result")
 		}
 	}
 	if rp := c.Fn("C12/R1", "airgapped", "Machine", "ReplayOperationsLog"); rp != nil {
